@@ -261,7 +261,8 @@ CHECKS["C16"] = {
             "or returning one, or a tiny init code) / precompile with arbitrary input / plain value call, gas 0..3M, values 0..100000. Oracles per entry: no panic, gas left <= supplied, depth <= 1025 (tracer), "
             "static => nothing journaled but writes of the present value and failure events, failed => nothing survives but one failure event; per case: second un-instrumented run gives identical results, logs and state; "
             "journal == replay of surviving operations (raw and finalised, roots, version root). non-trivial = a revert undid writes or reverts with nesting >= 2; distinct by case digest. "
-            "depth: self-recursive contract with 2^40..2^62 gas reaches exactly depth 1025 and terminates.",
+            "depth: self-recursive contract with 2^40..2^62 gas reaches exactly depth 1025 and terminates. "
+            "known-recreate: the pinned minimal input of the listed finding undo-code-after-recreate, run through the same oracles (the matcher must explain exactly it).",
     "level_text": "Grammar-based and raw generated bytecode against six executable oracles, thousands of scenarios per run, plus coverage-guided native fuzzing of raw bytecode with the same oracles inside the target (thorough). "
                   "Exploration: program size (<= ~150 bytes), three contracts and gas <= 3M bound what is reached.",
     "level_note": "Trusted: the recording proxy (it mirrors what the journal is supposed to do), the state dump, the EVM context used for direct execution (block 5, fixed hashes). "
@@ -270,6 +271,7 @@ CHECKS["C16"] = {
     "assumptions": ["gas is bounded by 3M for arbitrary programs so that termination is observable; unbounded gas is only given to the loop-free recursion program",
                     "the platform's own failure event and writes of an unchanged balance (zero-value transfers) are not state changes"],
     "units": [
+        {"name": "known-recreate", "test": "TestC16KnownRecreate", "quick": {"timeout": 300}, "thorough": {"timeout": 300}},
         {"name": "programs", "test": "TestC16Programs", "quick": {"checks": 3000, "shards": 4, "timeout": 900}, "thorough": {"checks": 30000, "shards": 16, "timeout": 3000}},
         {"name": "depth", "test": "TestC16Depth", "quick": {"checks": 10, "timeout": 600}, "thorough": {"checks": 60, "timeout": 1800}},
         {"name": "fuzz", "fuzz": "FuzzBytecode", "test": "FuzzBytecode", "thorough": {"fuzztime": "240s", "workers": 16, "timeout": 900}},
